@@ -2,6 +2,7 @@ package main
 
 import (
 	"fmt"
+	"strconv"
 	"strings"
 	"sync"
 
@@ -122,7 +123,11 @@ func runPurityCase(c *Ctx, expr string, sets [][]binding, goroutines int) {
 }
 
 func runTplPurity(c *Ctx, src string, maps []map[string]string, goroutines int) {
-	op := fmt.Sprintf("tpure %d %s", goroutines, strRunes(src))
+	var ms []string
+	for _, m := range maps {
+		ms = append(ms, "{"+varsStr(m)+"}")
+	}
+	op := fmt.Sprintf("tpure %d %s ; %s", goroutines, strRunes(src), strings.Join(ms, " "))
 	c.record(op, len(maps) >= 2)
 	c.count("template-purity-case")
 	var note string
@@ -137,8 +142,22 @@ func runTplPurity(c *Ctx, src string, maps []map[string]string, goroutines int) 
 		mapsBefore := make([]string, len(maps))
 		for i, m := range maps {
 			mapsBefore[i] = varsStr(m)
-			r, err := t.EvaluateWithVariables(m)
+			// the reference is what a template object that rendered nothing else gives
+			ft := mustache.NewMustacheTemplate()
+			ft.SetAutoVariables(false)
+			ft.SetTemplate(src)
+			own := map[string]string{}
+			for k, v := range m {
+				own[k] = v
+			}
+			r, err := ft.EvaluateWithVariables(own)
 			ref[i] = r + "|" + errCode(err)
+		}
+		for i, m := range maps {
+			r, err := t.EvaluateWithVariables(m)
+			if r+"|"+errCode(err) != ref[i] && note == "" {
+				note = fmt.Sprintf("first rendering under map %d (after %d other renderings on this object) gives %q, a new template object gives %q", i, i, r+"|"+errCode(err), ref[i])
+			}
 		}
 		// repeat in the opposite order: equal inputs, equal renderings; the maps are untouched
 		for round := 0; round < 2; round++ {
@@ -270,6 +289,11 @@ func propC19(c *Ctx) {
 			runPurityCase(c, f, [][]binding{{{"a", av}, {"b", evalVarValues[c.Rng.Intn(len(evalVarValues))]}}, {{"a", vInt(1)}, {"b", av}}}, 4)
 		}
 	}
+	// names resolved case-insensitively: collections whose keys differ only in letter case, rendered alternately
+	for _, src := range []string{"Hello, {{NAME}}!", "{{#naMe}}{{Name}}{{/naMe}}|{{{NAME}}}", "{{^NAME}}none{{/NAME}}{{name}}"} {
+		runTplPurity(c, src, []map[string]string{{"Name": "Bob", "name": "Carol"}, {"name": "Alice"}, {"NAME": "Z", "Name": "Y"}, {"nAME": ""}}, 8)
+		runTplPurity(c, src, []map[string]string{{"name": "Alice"}, {"Name": "Bob", "name": "Carol"}, {"name": "Alice"}}, 8)
+	}
 	exprs := []string{"a << 1", "a <= b", "a <> b", "Max(a, b) + 1", "'x' + a", "a[0]", "a / 0", "1 +"}
 	tpls := []string{"{{a}}", "x{{#a}}y{{/a}}", "{{{a}}}<=", "{{^a}}n{{/a}}"}
 	for i := 0; i < n/30+2; i++ {
@@ -278,7 +302,36 @@ func propC19(c *Ctx) {
 	c.Notes = append(c.Notes, fmt.Sprintf("%d generated expressions, each parsed once and evaluated 4 times under 2..4 variable sets in interleaved order (results equal; compiled program, constants incl. the shared Empty variant, variable values and function table unchanged), then from 16 goroutines with separate variable collections (results = sequential ones); the same for %d templates; 16 goroutines each owning its tokenizer/calculator/template. Under ./check the same stream is executed by a binary built with the Go race detector.", n, n))
 }
 
-func replayC19(c *Ctx, op string) {}
+// pure <g> <expr> ; {binds} {binds} …      tpure <g> <template> ; {vars} {vars} …
+func replayC19(c *Ctx, op string) {
+	f := strings.Fields(op)
+	if len(f) < 3 || (f[0] != "pure" && f[0] != "tpure") {
+		return
+	}
+	g, _ := strconv.Atoi(f[1])
+	src := string(parseRunes(f[2]))
+	rest := strings.TrimSpace(strings.SplitN(op, ";", 2)[len(strings.SplitN(op, ";", 2))-1])
+	var groups []string
+	for _, part := range strings.Split(rest, "}") {
+		part = strings.TrimSpace(part)
+		if strings.HasPrefix(part, "{") {
+			groups = append(groups, strings.TrimSpace(part[1:]))
+		}
+	}
+	if f[0] == "pure" {
+		var sets [][]binding
+		for _, gr := range groups {
+			sets = append(sets, parseEvalStep(append([]string{"-"}, strings.Fields(gr)...)).binds)
+		}
+		runPurityCase(c, src, sets, g)
+		return
+	}
+	var maps []map[string]string
+	for _, gr := range groups {
+		maps = append(maps, parseTplStep(append([]string{"-"}, strings.Fields(gr)...)).vars)
+	}
+	runTplPurity(c, src, maps, g)
+}
 
 func init() {
 	props["C19"] = propC19
